@@ -638,7 +638,7 @@ pub fn drive(ctx: &Ctx) -> Summary {
         let mut redefinition = false;
         for k in 0..len {
             // now and then re-insert an earlier identifier (redefinition)
-            let mut d = if !hist.is_empty() && rng.gen_bool(0.2) {
+            let d = if !hist.is_empty() && rng.gen_bool(0.2) {
                 let mut d = hist.choose(&mut rng).unwrap().clone();
                 d["tag"] = json!(k as u64 + 1);
                 d
